@@ -38,7 +38,7 @@ def main():
     nreq = sum(len(t["ev"]) for t in traces)
     cov = {"states": mc.distinct, "transitions": mc.generated,
            "traces_validated_against_impl": val.traces,
-           "samples": [{"trace_prefix": traces[-7]["ev"][:5], "od": traces[-7]["od"][:3]}],
+           "samples": [{"trace_prefix": traces[-min(7, len(traces))]["ev"][:5], "od": traces[-min(7, len(traces))]["od"][:3]}],
            "requests_judged": nreq, "trace_states": val.states, "rejected": len(val.rejects),
            "value_lengths": "0..64 exhaustively for every data-type class and value source, to 10^4 sampled"}
     return v.finish("model_checking", cov, [
